@@ -510,7 +510,9 @@ fn check_shard_discontinuity(
     table_prefix: &'static str,
     proposed_insertion_range: Range<u64>,
 ) -> Result<(), Error> {
-    if let Ok((Some(stored_min), Some(stored_max))) = conn
+    // A failure of the guard query must propagate: swallowing it would skip the check and let a
+    // discontinuous insertion through.
+    let stored_range = conn
         .query_row(
             &format!("SELECT MIN(shard_index), MAX(shard_index) FROM {table_prefix}_tree_shards"),
             [],
@@ -520,8 +522,8 @@ fn check_shard_discontinuity(
                 Ok((min, max))
             },
         )
-        .map_err(Error::Query)
-    {
+        .map_err(Error::Query)?;
+    if let (Some(stored_min), Some(stored_max)) = stored_range {
         // If the ranges overlap, or are directly adjacent, then we aren't creating a
         // discontinuity. We can check this by comparing their start-inclusive,
         // end-exclusive bounds:
